@@ -36,7 +36,7 @@ ASSUMPTIONS = [
     "forced refresh: |2KE/(dof kT) - 1| <= 1e-9 for T >= 1 K (the implementation adds 1e-15 eV to the temperature before scaling)",
     "normality: |z|>5 on mean/variance or KS p<1e-6 flags; re-measured once with 4x the draws",
 ]
-REQUIRED = {"reversibility_runs_with_rigid_bonds": 15, "order_runs_with_reassigned_time_step": 20, "forced_refresh_with_constraints": 30, "reversibility_runs": 150, "reversibility_runs_with_used_integrator": 50, "order_runs_with_used_integrator": 20, "order_triples": 30, "refresh_batches": 4, "forced_refresh": 100, "hmc_trials": 300, "ke_checked_at_criteria": 300}
+REQUIRED = {"refresh_components_watched": 3000, "reversibility_runs_with_rigid_bonds": 15, "order_runs_with_reassigned_time_step": 20, "forced_refresh_with_constraints": 30, "reversibility_runs": 150, "reversibility_runs_with_used_integrator": 50, "order_runs_with_used_integrator": 20, "order_triples": 30, "refresh_batches": 4, "forced_refresh": 100, "hmc_trials": 300, "ke_checked_at_criteria": 300}
 SHARD_TIMEOUT = {"quick": 900, "thorough": 3000}
 
 
@@ -332,7 +332,14 @@ def run_hmc(spec, rec):
     rec_state = {"ke": None, "n": 0}
 
     def recording_distribution(context):
+        before = context.atoms.get_momenta().copy()
         maxwell_boltzmann_distribution(context)
+        after = context.atoms.get_momenta()
+        # "draws every component": a component that kept its value was not drawn (a continuous draw never repeats one)
+        kept = int((after == before).sum()) if before.shape == after.shape and np.abs(before).max() > 0 else 0
+        rec.count("refresh_components_watched", after.size)
+        if kept:
+            rec.viol("C14/refresh-leaves-components-undrawn", f"{kept} of {after.size} momentum components kept their value through a momentum refresh", {"natoms": len(context.atoms), "kept": kept})
         rec_state["ke"] = float(context.atoms.get_kinetic_energy())
         rec_state["n"] += 1
 
@@ -362,6 +369,13 @@ def run_hmc(spec, rec):
         vr = np.random.default_rng(5)
         mv.check_move = lambda ctx: bool(vr.random() < 0.6)
     mc.add_move(mv, name="hmc")
+    if spec["j"] % 2 == 0:
+        # a single-particle displacement move in the same table (its own canonical criteria): whatever it leaves on the
+        # context, the next refresh still draws every component
+        from quansino.moves.displacement import DisplacementMove
+        from quansino.operations.displacement import Ball
+
+        mc.add_move(DisplacementMove(np.arange(n), Ball(0.05)), name="d")
 
     def on_trial(t):
         rec.count("hmc_trials")
